@@ -314,101 +314,69 @@ theorem double2REAL_special_eq_derReal (b : Nat) (h : f64IsNaN b ∨ f64IsInf b 
   rw [e1, e2, e3]
   rcases h with ⟨h1, h2⟩ | ⟨h1, h2⟩ | ⟨h1, h2⟩ <;> simp [h1, h2]
 
-theorem normal_ctz_le (b : Nat) (hn : f64IsNormal b) :
-    f64Mant b = 2 ^ 52 + f64Frac b ∧ ctz (f64Mant b) ≤ 52 := by
-  unfold f64IsNormal at hn
-  have hm : f64Mant b = 2 ^ 52 + f64Frac b := by unfold f64Mant; rw [if_neg (by omega)]
-  refine ⟨hm, ?_⟩
-  have hF : f64Frac b < 2 ^ 52 := Nat.mod_lt _ (by positivity)
-  have := ctz_lt_of_mod_ne (f64Mant b) 53 (by rw [hm]; omega)
-  omega
+/-- the model's IEEE-754 reading of a bit pattern is the Spec's -/
+theorem toDyadic_eq (b : Nat) : toDyadic b = (f64Mant b, f64Pow b) := by
+  unfold toDyadic f64Mant f64Pow
+  rw [(f64_fields b).1, (f64_fields b).2.1]
+  split <;> rfl
 
-/-- what `asn_double2REAL` stores for **every normal double**: the DER first octet and exponent,
-    then the minimal mantissa octets — preceded by one redundant 00 octet exactly when `t < 48`
-    and `t % 8 ≥ 5` (the odd-mantissa right shift by 5..7 bits clears the hidden-bit octet `0x1X`,
-    which is still emitted: finding F31). -/
-theorem double2REAL_normal (b : Nat) (hn : f64IsNormal b) :
-    double2REAL b =
-      (0x80 + 0x40 * f64Sign b + ((realExpOctets (f64Pow b + (ctz (f64Mant b) : Nat))).length - 1)) ::
-        (realExpOctets (f64Pow b + (ctz (f64Mant b) : Nat)) ++
-          ((if ctz (f64Mant b) < 48 ∧ ctz (f64Mant b) % 8 ≥ 5 then [0] else []) ++
-            toBE (f64Mant b / 2 ^ ctz (f64Mant b)))) := by
-  obtain ⟨hm, ht⟩ := normal_ctz_le b hn
-  unfold f64IsNormal at hn
-  have hcl : classify b = .normal := by
-    unfold classify; rw [(f64_fields b).1, if_neg (by omega), if_neg (by omega)]
-  unfold double2REAL
-  rw [hcl]
-  simp only []
-  rw [double2REALfinite_normal b (by rw [(f64_fields b).1]; omega)]
-  obtain ⟨e1, e2, e3⟩ := f64_fields b
-  rw [e1, e2, e3, ← hm]
-  have hp : f64Pow b = (f64Exp b : Int) - 1075 := by unfold f64Pow; rw [if_neg (by omega)]
-  rw [← hp, expHeader_eq _ _ (by rw [hp]; omega) (by rw [hp]; omega)]
-  split <;> simp
+/-- **asn_double2REAL = DER, every double** (all bit patterns: normal, subnormal, ±0, ±∞, NaN):
+    the stored octets are exactly the X.690 DER contents `derReal` (§8.5 + §11.3.1: base 2, odd
+    mantissa, exponent and mantissa each in the fewest octets; see `derReal_canonical`).
+    Before the repair of F1 (subnormals got a hidden bit) and F31 (a redundant leading 00 mantissa
+    octet after a shift by 5..7 bits) this held only for part of the normal doubles. -/
+theorem double2REAL_eq_derReal (b : Nat) : double2REAL b = derReal b := by
+  by_cases hs : f64IsNaN b ∨ f64IsInf b ∨ f64IsZero b
+  · exact double2REAL_special_eq_derReal b hs
+  · have hE : f64Exp b ≠ 2047 := by
+      intro h; apply hs; unfold f64IsNaN f64IsInf
+      by_cases h0 : f64Frac b = 0
+      · exact Or.inr (Or.inl ⟨h, h0⟩)
+      · exact Or.inl ⟨h, h0⟩
+    have hM : f64Mant b ≠ 0 := by
+      intro h; apply hs; right; right
+      unfold f64IsZero; unfold f64Mant at h; split at h <;> omega
+    have hfin : double2REAL b = double2REALfinite b := by
+      unfold double2REAL classify
+      rw [(f64_fields b).1, (f64_fields b).2.1, if_neg hE]
+      by_cases h0 : f64Exp b = 0
+      · have : f64Frac b ≠ 0 := by
+          intro h; apply hM; unfold f64Mant; rw [if_pos h0]; exact h
+        rw [if_pos h0, if_neg this]
+      · rw [if_neg h0]
+    rw [hfin, double2REALfinite_eq b (by rw [toDyadic_eq]; exact hM), toDyadic_eq]
+    simp only []
+    have hF : f64Frac b < 2 ^ 52 := Nat.mod_lt _ (by positivity)
+    have hEl : f64Exp b < 2048 := Nat.mod_lt _ (by decide)
+    have hmlt : f64Mant b < 2 ^ 53 := by unfold f64Mant; split <;> omega
+    have ht : ctz (f64Mant b) ≤ 52 := by
+      have := ctz_lt_of_mod_ne (f64Mant b) 53 (by rw [Nat.mod_eq_of_lt hmlt]; exact hM); omega
+    have hp : -1075 ≤ f64Pow b ∧ f64Pow b ≤ 972 := by unfold f64Pow; split <;> omega
+    rw [(f64_fields b).2.2, expHeader_eq _ _ (by omega) (by omega)]
+    unfold derReal
+    rw [if_neg hE, if_neg hM]
+    simp
 
-/-- **asn_double2REAL = DER** (partial: see `double2REAL_normal` / F31 for the excluded normal
-    doubles and `double2REAL_subnormal_cex` / F1 for subnormals): for every normal double whose
-    significand does not have `t < 48 ∧ t % 8 ≥ 5` trailing zero bits the stored octets are
-    exactly the X.690 DER contents. -/
-theorem double2REAL_eq_derReal_partial (b : Nat) (hn : f64IsNormal b)
-    (hg : ¬ (ctz (f64Mant b) < 48 ∧ ctz (f64Mant b) % 8 ≥ 5)) :
-    double2REAL b = derReal b := by
-  rw [double2REAL_normal b hn, if_neg hg]
-  obtain ⟨hm, _⟩ := normal_ctz_le b hn
-  unfold f64IsNormal at hn
-  unfold derReal
-  rw [if_neg (by omega), if_neg (by rw [hm]; omega)]
-  simp
-
-/-- the guard of `double2REAL_eq_derReal_partial` is satisfiable (1.0, 1.5, 0.1, DBL_MAX, DBL_MIN) -/
-example : ∀ b ∈ [0x3ff0000000000000, 0x3ff8000000000000, 0x3fb999999999999a, 0x7fefffffffffffff, 0x0010000000000000],
-    f64IsNormal b ∧ ¬ (ctz (f64Mant b) < 48 ∧ ctz (f64Mant b) % 8 ≥ 5) := by decide +kernel
-
-/-- F31: `asn_double2REAL(1.0078125)` stores `80 F9 00 81`; the DER contents are `80 F9 81`
-    (X.690 §11.3.1: mantissa in the fewest octets). -/
-theorem double2REAL_leading_zero_cex :
-    f64IsNormal 0x3ff0200000000000 ∧ double2REAL 0x3ff0200000000000 = [0x80, 0xf9, 0x00, 0x81] ∧
+/-- former F31 witness: `asn_double2REAL(1.0078125)` stored `80 F9 00 81`; it now stores the DER
+    contents `80 F9 81` (X.690 §11.3.1: mantissa in the fewest octets). -/
+theorem double2REAL_leading_zero_witness :
+    f64IsNormal 0x3ff0200000000000 ∧ double2REAL 0x3ff0200000000000 = [0x80, 0xf9, 0x81] ∧
     derReal 0x3ff0200000000000 = [0x80, 0xf9, 0x81] := by decide +kernel
 
 set_option exponentiation.threshold 2000 in
-/-- F1: subnormal doubles.  `asn_double2REAL` forces the hidden bit that subnormals do not have:
-    the double with bit pattern 3 (3·2^-1074) is stored as (2^52+3)·2^-1125 instead of the DER
-    form `81 FB CE 03`, and decodes back as the bit pattern 2. -/
-theorem double2REAL_subnormal_cex :
-    f64IsSubnormal 3 ∧ double2REAL 3 = [0x81, 0xfb, 0x9b, 0x10, 0, 0, 0, 0, 0, 3] ∧
-    derReal 3 = [0x81, 0xfb, 0xce, 0x03] ∧ REAL2double (double2REAL 3) = .ok 2 := by decide +kernel
+/-- former F1 witness: the subnormal double with bit pattern 3 (3·2^-1074) was stored with a hidden
+    bit as (2^52+3)·2^-1125 and decoded back as the bit pattern 2; it is now stored in the DER form
+    `81 FB CE 03` and comes back bit for bit (as do the smallest and the largest subnormal). -/
+theorem double2REAL_subnormal_witness :
+    f64IsSubnormal 3 ∧ double2REAL 3 = [0x81, 0xfb, 0xce, 0x03] ∧
+    derReal 3 = [0x81, 0xfb, 0xce, 0x03] ∧ REAL2double (double2REAL 3) = .ok 3 ∧
+    double2REAL 1 = [0x81, 0xfb, 0xce, 0x01] ∧
+    double2REAL 0x000fffffffffffff = [0x81, 0xfb, 0xce, 0x0f, 0xff, 0xff, 0xff, 0xff, 0xff, 0xff] ∧
+    REAL2double (double2REAL 0x800fffffffffffff) = .ok 0x800fffffffffffff := by decide +kernel
 
 theorem bits_decompose (b : Nat) (hb : b < 2 ^ 64) :
     b = f64Sign b * signBit + (f64Exp b * 2 ^ 52 + f64Frac b) := by
   unfold f64Sign f64Exp f64Frac signBit; omega
-
-/-- **round trip, normal doubles**: `asn_REAL2double(asn_double2REAL(d)) = d` bit for bit, for
-    every normal double (including those stored with the redundant mantissa octet of F31). -/
-theorem REAL2double_double2REAL (b : Nat) (hb : b < 2 ^ 64) (hn : f64IsNormal b) :
-    REAL2double (double2REAL b) = .ok b := by
-  obtain ⟨hm, ht⟩ := normal_ctz_le b hn
-  rw [double2REAL_normal b hn]
-  unfold f64IsNormal at hn
-  have hF : f64Frac b < 2 ^ 52 := Nat.mod_lt _ (by positivity)
-  have hp : f64Pow b = (f64Exp b : Int) - 1075 := by unfold f64Pow; rw [if_neg (by omega)]
-  have hm0 : f64Mant b ≠ 0 := by rw [hm]; omega
-  obtain ⟨p1, p2⟩ := ctz_props (f64Mant b) hm0
-  obtain ⟨d, hd⟩ := Nat.dvd_of_mod_eq_zero p1
-  have hpc : (2:Nat) ^ ctz (f64Mant b) > 0 := by positivity
-  have hN : f64Mant b / 2 ^ ctz (f64Mant b) = d := by
-    have := Nat.mul_div_cancel_left d hpc; rw [← hd] at this; exact this
-  have hdle : d ≤ f64Mant b := by rw [← hN]; exact Nat.div_le_self _ _
-  have hs : f64Sign b ≤ 1 := by unfold f64Sign; omega
-  rw [REAL2double_base2 (f64Sign b) hs _ (by rw [hp]; omega) (by rw [hp]; omega) _
-    (by split <;> simp) _ (by rw [hN]; omega) (by rw [hN]; intro h; subst h; simp at hd; omega)]
-  have hr : roundToDouble (f64Mant b / 2 ^ ctz (f64Mant b)) (f64Pow b + (ctz (f64Mant b) : Nat))
-      = f64Exp b * 2 ^ 52 + f64Frac b := by
-    rw [← roundToDouble_mul_pow, hN, Nat.mul_comm, ← hd, hm, hp]
-    exact roundToDouble_normal _ _ hn.1 hn.2 hF
-  rw [hr, if_neg (by unfold posInf; omega)]
-  congr 1
-  exact (bits_decompose b hb).symm
 
 /-- **round trip, special values**: ±0 and ±∞ come back bit for bit; every NaN comes back as a NaN
     (the C code returns the `NAN` macro, so the payload is not preserved). -/
@@ -429,7 +397,7 @@ theorem REAL2double_double2REAL_special (b : Nat) (hb : b < 2 ^ 64) :
     simp [h1, h2, REAL2double]
 
 /-- **asn_REAL2double decodes the DER contents of every finite or infinite double exactly**
-    (subnormals included — the subnormal defect F1 is in the encoder only). -/
+    (subnormals included). -/
 theorem REAL2double_derReal (b : Nat) (hb : b < 2 ^ 64) (hnan : ¬ f64IsNaN b) :
     REAL2double (derReal b) = .ok b := by
   have hdec := bits_decompose b hb
@@ -477,6 +445,14 @@ theorem REAL2double_derReal (b : Nat) (hb : b < 2 ^ 64) (hnan : ¬ f64IsNaN b) :
   rw [hr, if_neg (by unfold posInf; omega)]
   congr 1
   exact hdec.symm
+
+/-- **round trip, every double**: `asn_REAL2double(asn_double2REAL(d)) = d` bit for bit for every
+    double that is not a NaN — normal, subnormal, ±0, ±∞ (a NaN comes back as a NaN:
+    `REAL2double_double2REAL_special`). -/
+theorem REAL2double_double2REAL (b : Nat) (hb : b < 2 ^ 64) (hnan : ¬ f64IsNaN b) :
+    REAL2double (double2REAL b) = .ok b := by
+  rw [double2REAL_eq_derReal]
+  exact REAL2double_derReal b hb hnan
 
 /-- **the Spec is canonical** (sanity of `derReal`, X.690 §11.3.1): for every finite non-zero double
     the mantissa `n` is odd, `n · 2^e` is exactly the value of the double, the exponent octets are the
